@@ -1,6 +1,6 @@
 (* Case runner for C06. *)
 From Coq Require Import QArith.
-From PV Require Import M_Filter M_Prune M_TagFilter S_Filter S_Prune S_TagFilter R_Filter Gen.Gen_UnitTable.
+From PV Require Import M_Filter M_Prune M_TagFilter S_Filter S_Prune S_TagFilter R_Filter R_Driver Gen.Gen_UnitTable.
 Open Scope Z_scope.
 Open Scope string_scope.
 
@@ -14,6 +14,7 @@ Definition units_of (t : term) : list (string * string) := map (fun e => (gs (gn
 
 Definition run_C06 (i : term) : term :=
   let op := gs (gn i 0) in
+  if String.eqb op "e2e" then run_e2e i else
   let p := profile_of (gn i 1) in
   if String.eqb op "names" then
     let '(p', (fm, im, hm, hnm)) :=
@@ -36,7 +37,8 @@ Definition run_C06 (i : term) : term :=
     TL (TS err :: obs_profile p')
   else TL [TS "bad-op"].
 
-Definition eqv_C06 (i m o : term) : bool := term_eqb m o.
+Definition eqv_C06 (i m o : term) : bool :=
+  if String.eqb (gs (gn i 0)) "e2e" then eqv_e2e i m o else term_eqb m o.
 
 Definition stages (tbl : term) := af_stages (tbl_M tbl) (tbl_V tbl) uts.
 Definition spec_pipeline (tbl : term) := spec_apply_focus (tbl_M tbl) (tbl_V tbl) uts.
@@ -57,6 +59,7 @@ Definition all_rx_ok (tbl : term) (c : af_cfg) : bool :=
 
 Definition spec_C06 (i o : term) : bool :=
   let op := gs (gn i 0) in
+  if String.eqb op "e2e" then existsb (Z.eqb 900) (cls_e2e i) || spec_e2e i o else
   let p := profile_of (gn i 1) in
   let p' := with_obs p o 1 in
   if String.eqb op "names" then
@@ -78,6 +81,7 @@ Definition spec_C06 (i o : term) : bool :=
 
 Definition cls_C06 (i : term) : list Z :=
   let op := gs (gn i 0) in
+  if String.eqb op "e2e" then cls_e2e i else
   let p := profile_of (gn i 1) in
   if String.eqb op "names" then
     let M := tbl_M (gn i 6) in
